@@ -2,9 +2,10 @@
 
 Decided: (a) every solver configuration / start density / restart history reaches the same result class per
 geometry: TLC enumerates the walks of SCFHistory (sequences of solves over neighbouring geometries x start
-density {cold, density of the previous solve, perturbed} x solver configuration incl. RHF vs UHF singlet);
+density {cold, density of the previous solve, perturbed} x solver configuration incl. RHF vs UHF singlet, SP2 thresholds down to below the floor);
 PathIndependent holds on the model given C03's FlagTruthful and the premise of a single stable closed-shell
-solution.  The exported walks are replayed on the real code (H2O, CH4, H2CO); all unflagged solves at the same
+solution.  The exported walks are replayed on the real code (H2O, CH4, H2CO, NH3 alone and as rows of mixed batches whose
+rows converge at different iterations); all unflagged solves of the same row at the same
 geometry must agree in energy, forces, charges and occupied orbital energies within K*max(eps_i, eps_j)
 (K solver-aware, calibrated).  Every solve is also a C03 instance (residual predicates there).
 Not decided: (b) monotone approach to the limit under tightening (reported as observation only)."""
@@ -38,6 +39,10 @@ def main(tier):
         for c in sorted(cfgs):
             pick.append([{"g": 0, "start": "cold", "cfg": c, "flagged": False}, {"g": 1, "start": "prev", "cfg": c, "flagged": False}])
         cases = [dict(mol=m, walk=w) for m in (("h2o", "ch4") if tier == "quick" else ("h2o", "ch4", "h2co", "nh3")) for w in pick]
+        # mixed batches (rows converge at different iterations, different occupation counts): every configuration, cold and restarted
+        for mates, m in ((["h2o"], "h2co"), (["h2"], "h2co"), (["h2co"], "h2o"), (["h2", "ch4"], "nh3")) if tier == "thorough" else ((["h2o"], "h2co"), (["h2"], "ch4")):
+            for c in sorted(cfgs):
+                cases.append(dict(mol=m, mates=mates, walk=[{"g": 0, "start": "cold", "cfg": c, "flagged": False}, {"g": 1, "start": "prev", "cfg": c, "flagged": False}]))
         res = common.run_forked(cases, hist_driver.run_walk, timeout=900)
         byg = {}
         n_solves = 0
@@ -50,9 +55,10 @@ def main(tier):
                 if "error" in rec:
                     rep.violation("solve_raised", {"mol": c["mol"], "walk": c["walk"], "solve": rec}, cfg=rec["cfg"], start=rec["start"])
                     continue
-                if rec["flag"]:
-                    continue
-                byg.setdefault((c["mol"], rec["g"]), []).append(rec)
+                for m, row in enumerate(rec["rows"]):
+                    if row["flag"]:
+                        continue
+                    byg.setdefault(("+".join(c.get("mates", []) + [c["mol"]]) + "#%d" % m, rec["g"]), []).append(dict(row, cfg=rec["cfg"], start=rec["start"], eps=rec["eps"], g=rec["g"]))
         worst = {k: 0.0 for k in K}
         n_pairs = 0
         for (mol, gi), recs in byg.items():
@@ -72,7 +78,7 @@ def main(tier):
             "states": r.distinct + g.distinct, "transitions": r.generated + g.generated, "traces_validated_against_impl": len(cases), "solves": n_solves, "class_comparisons": n_pairs,
             "samples": [{"mol": c["mol"], "walk": c["walk"]} for c in cases[:2]], "calibration_largest_difference_over_bound": worst, "walks_exported": len(walks),
             "evaluations": len(cases), "distinct_nontrivial": len({common.sha([c["mol"], c["walk"]]) for c in cases if any(s["start"] != "cold" for s in c["walk"])}),
-            "rule": "walks of length 2 over 2 geometries x 3 start densities x 10 solver configurations exported by TLC, sampled by VERIF_SEED plus one cold+prev walk per configuration; non-trivial = some solve restarts from a previous or perturbed density", "exhaustive": False,
+            "rule": "walks of length 2 over 2 geometries x 3 start densities x 12 solver configurations exported by TLC, sampled by VERIF_SEED plus one cold+prev walk per configuration; non-trivial = some solve restarts from a previous or perturbed density", "exhaustive": False,
             "bounds": {"K": K, "FLOOR": FLOOR},
         }
         return rep.finish(cov, assumptions=["premise of the property: single stable closed-shell solution (small near-equilibrium molecules)", "constants K calibrated, not derived", "monotone approach under tightening not decided"])
